@@ -2,6 +2,7 @@
 C03 — Datagram payloads are never altered and the size contract is exact.
 -/
 import WtVerif.Props.C17
+import WtVerif.Driver.WorkerLoop
 
 namespace Props.C03
 open Varint Datagram
@@ -104,3 +105,160 @@ example : maxDatagramSize (some 1200) 0 = some 1199 ∧ maxDatagramSize (some 0)
     maxDatagramSize (some 1) 256 = none ∧ maxDatagramSize none 0 = none := by decide
 
 end Props.C03
+
+/-! ### the driver's datagram path: nothing invented, nothing duplicated, order kept
+
+`Driver/WorkerLoop.lean`: the worker's datagram branch and the bounded queue towards
+`receive_datagram`, under every schedule of arrivals, loop turns and reads (including the
+structure in which the loop parks on a full queue). Loss happens only below (quinn's own
+buffer) — inside the driver every datagram is in exactly one place. -/
+
+namespace Props.C03.Path
+open WorkerLoop
+
+/-- datagrams handed to quinn's receive side so far -/
+def sentOf (as : List WorkerLoop.Act) : List Nat :=
+  as.filterMap fun a => match a with | .peerDgram d => some d | _ => none
+
+/-- every place a datagram can be, oldest first -/
+def places (s : St) : List Nat := s.dgRead ++ s.dgQueue ++ s.parked.toList ++ s.dgBacklog
+
+theorem step_places (s : St) (a : WorkerLoop.Act) :
+    places (step s a) = places s ++ (match a with | .peerDgram d => [d] | _ => []) := by
+  cases a
+  case peerDgram d => simp [step, places]
+  case peerOpen id => simp [step, places]
+  case peerClose => simp [step, places]
+  case loopStream =>
+    simp only [step, List.append_nil]
+    split
+    · rfl
+    · split <;> rfl
+  case loopControl =>
+    simp only [step, List.append_nil]
+    split
+    · rfl
+    · split <;> rfl
+  case loopDgram =>
+    simp only [step, List.append_nil]
+    cases hp : s.parked with
+    | some p => simp
+    | none =>
+      simp only [Option.isSome_none, Bool.false_eq_true, if_false]
+      cases hb : s.dgBacklog with
+      | nil => rfl
+      | cons d rest =>
+        simp only
+        split
+        · simp [places, hp, hb]
+        · split
+          · rfl
+          · simp [places, hp, hb]
+  case appReadDgram =>
+    simp only [step, List.append_nil]
+    cases hq : s.dgQueue with
+    | nil => rfl
+    | cons d rest =>
+      cases hp : s.parked with
+      | some p => simp [places, hq, hp]
+      | none => simp [places, hq, hp]
+
+/-- **Conservation, in order**: after any schedule, what the application has read, followed by
+what the queue, a parked handler and quinn still hold, is exactly the sequence of datagrams that
+arrived — so what was read is a prefix of it: nothing invented, nothing twice, nothing merged. -/
+theorem datagram_path_conserves (cap : Nat) (awaitFree : Bool) (as : List WorkerLoop.Act) :
+    places (run (init cap awaitFree) as) = sentOf as := by
+  have gen : ∀ (as : List WorkerLoop.Act) (s : St), places (run s as) = places s ++ sentOf as := by
+    intro as
+    induction as with
+    | nil => intro s; simp [run, sentOf]
+    | cons a as ih =>
+      intro s
+      have h := ih (step s a)
+      simp only [run, List.foldl_cons] at h ⊢
+      rw [h, step_places]
+      cases a <;> simp [sentOf]
+  have := gen as (init cap awaitFree)
+  simpa [places, init] using this
+
+theorem read_datagrams_are_a_prefix_of_the_arrivals (cap : Nat) (awaitFree : Bool) (as : List WorkerLoop.Act) :
+    (run (init cap awaitFree) as).dgRead <+: sentOf as := by
+  rw [← datagram_path_conserves cap awaitFree as]
+  simp only [places, List.append_assoc]
+  exact List.prefix_append _ _
+
+/-- the queue towards the application never holds more than its capacity -/
+theorem datagram_queue_bounded (cap : Nat) (awaitFree : Bool) (as : List WorkerLoop.Act) :
+    (run (init cap awaitFree) as).dgQueue.length ≤ cap ∧
+    ((run (init cap awaitFree) as).parked.isSome = true → (run (init cap awaitFree) as).dgQueue.length = cap) := by
+  have gen : ∀ (as : List WorkerLoop.Act) (s : St), (s.dgQueue.length ≤ s.cap ∧ (s.parked.isSome = true → s.dgQueue.length = s.cap)) →
+      ((run s as).dgQueue.length ≤ (run s as).cap ∧ ((run s as).parked.isSome = true → (run s as).dgQueue.length = (run s as).cap)) ∧
+      (run s as).cap = s.cap := by
+    intro as
+    induction as with
+    | nil => intro s h; exact ⟨h, rfl⟩
+    | cons a as ih =>
+      intro s h
+      have hs : (((step s a).dgQueue.length ≤ (step s a).cap ∧ ((step s a).parked.isSome = true → (step s a).dgQueue.length = (step s a).cap))) ∧ (step s a).cap = s.cap := by
+        obtain ⟨h1, h2⟩ := h
+        cases a
+        case peerDgram d => exact ⟨⟨h1, h2⟩, rfl⟩
+        case peerOpen id => exact ⟨⟨h1, h2⟩, rfl⟩
+        case peerClose => exact ⟨⟨h1, h2⟩, rfl⟩
+        case loopStream =>
+          simp only [step]
+          split
+          · exact ⟨⟨h1, h2⟩, rfl⟩
+          · split <;> exact ⟨⟨h1, h2⟩, rfl⟩
+        case loopControl =>
+          simp only [step]
+          split
+          · exact ⟨⟨h1, h2⟩, rfl⟩
+          · split <;> exact ⟨⟨h1, h2⟩, rfl⟩
+        case loopDgram =>
+          simp only [step]
+          split
+          · exact ⟨⟨h1, h2⟩, rfl⟩
+          · rename_i hnp
+            have hpn : s.parked = none := by
+              cases hp : s.parked with
+              | none => rfl
+              | some p => simp [hp] at hnp
+            split
+            · exact ⟨⟨h1, h2⟩, rfl⟩
+            · split
+              · rename_i hlt
+                refine ⟨⟨by simp; omega, ?_⟩, rfl⟩
+                simp [hpn]
+              · split
+                · exact ⟨⟨h1, h2⟩, rfl⟩
+                · rename_i hge _
+                  refine ⟨⟨h1, ?_⟩, rfl⟩
+                  intro _
+                  simp only
+                  omega
+        case appReadDgram =>
+          simp only [step]
+          split
+          · exact ⟨⟨h1, h2⟩, rfl⟩
+          · rename_i d rest hq
+            split
+            · rename_i p hp
+              have := h2 (by simp [hp])
+              rw [hq] at this h1
+              simp at this h1 ⊢
+              omega
+            · rename_i hp
+              rw [hq] at h1
+              simp at h1 ⊢
+              refine ⟨by omega, ?_⟩
+              simp [hp]
+      obtain ⟨r1, r2⟩ := ih (step s a) hs.1
+      simp only [run, List.foldl_cons] at r1 r2 ⊢
+      exact ⟨r1, by rw [r2, hs.2]⟩
+  have := (gen as (init cap awaitFree) (by simp [init])).1
+  have hc : (run (init cap awaitFree) as).cap = cap := (gen as (init cap awaitFree) (by simp [init])).2
+  rw [hc] at this
+  exact this
+
+end Props.C03.Path
